@@ -45,7 +45,7 @@ def replace_node(src: str, node, new_text: str) -> str:
 def _pick(nodes, nth: int):
     if not nodes:
         raise MutationError("no statement matches the mutation predicate")
-    if nth >= len(nodes):
+    if nth >= len(nodes) or -nth > len(nodes):
         raise MutationError(f"only {len(nodes)} matches, wanted #{nth}")
     return nodes[nth]
 
